@@ -8,6 +8,7 @@ package props
 // accepted inputs must be answered identically in both runs, to the end.
 
 import (
+	"strings"
 	"bytes"
 	"context"
 	"encoding/json"
@@ -43,7 +44,16 @@ var c17Modes = []app.Mode{{Kind: "long"}, {Kind: "persist", Backend: "mem"}, {Ki
 
 var genRefused = rapid.Custom(func(t *rapid.T) string {
 	switch uniformN(t, 10, "refkind") {
-	case 0, 1:
+	case 0:
+		if chancePct(t, 40, "longmultibyte") {
+			// longer than the limit in bytes, not in characters
+			head := []string{"a", "1", "+1"}[uniformN(t, 3, "mbhead")]
+			fill := []string{"é", "é", "日", "ø"}[uniformN(t, 4, "mbfill")]
+			n := (256-len(head)+len(fill)-1)/len(fill) + []int{0, 0, 1, 2, 40, 100}[uniformN(t, 6, "mbextra")]
+			return head + strings.Repeat(fill, n)
+		}
+		fallthrough
+	case 1:
 		return string(bytes.Repeat([]byte{"1a9+x"[uniformN(t, 5, "longfill")]}, []int{256, 257, 300, 400, 1000, 256, 257, 300, 65535, 65536, 65537, 65700, 65791, 65792, 131072, 131200}[uniformN(t, 16, "toolong")]))
 	case 2:
 		// arbitrary bytes that do not start like an accepted input
